@@ -73,6 +73,20 @@ def batch_shape(c):
     return [2, c["rows"] // 2] if c["rows"] % 2 == 0 else [1, c["rows"]]
 
 
+def build_batched_other(c, b0):
+    """the second operand of torch.bmm: b0 copies of the weight matrix transposed, [b0, K, N], quantized as ONE rank-3 tensor
+    (per-tensor, or per-axis along the last dimension)"""
+    dtype = FMT[c["dtype"]]
+    K, N = c["K"], c["N"]
+    w = torch.tensor([[W(c, j, k) for k in range(K)] for j in range(N)], dtype=torch.float64)
+    sc = torch.tensor([2.0 ** ew(c, j) for j in range(N)], dtype=torch.float64).reshape(N, 1)
+    w3 = (w * sc).to(dtype).t().unsqueeze(0).repeat(b0, 1, 1).contiguous()
+    wq = qtypes[c["wq"]]
+    if c["waxis"] == "per-axis" and N > 1:
+        return SymmetricQuantizer.apply(w3, wq, -1, sc.to(dtype).reshape(1, 1, N))
+    return quantize_activation(w3, wq, torch.tensor(2.0 ** ew(c, 0), dtype=dtype))
+
+
 def build(c, contiguous=True):
     dtype = FMT[c["dtype"]]
     rows, K, N = c["rows"], c["K"], c["N"]
@@ -127,6 +141,10 @@ def one_call(c, kind, contiguous):
         with torch.no_grad():
             if kind == "linear":
                 out = F.linear(x, qw, bias)
+            elif kind == "bmm":
+                out = torch.bmm(x, build_batched_other(c, x.shape[0]))
+            elif kind == "bmm_plain":       # quantized activations x a plain batch of matrices (the exact dequantized weights)
+                out = torch.bmm(x, build_batched_other(c, x.shape[0]).dequantize())
             else:
                 out = torch.matmul(x, qw.t())
     finally:
@@ -184,6 +202,10 @@ def main():
             variants.append(("linear", False))
         if c["act"] != "float" and c["wq"] not in ("qint4", "qint2") and c["brank"] >= 2:
             variants.append(("matmul", True))
+        if c["wq"] not in ("qint4", "qint2") and c["brank"] == 3:
+            if c["act"] != "float" and c["N"] % 2 == 0:
+                variants.append(("bmm_plain", True))
+            variants.append(("bmm", True))       # aten.bmm: both operands rank 3 (float or quantized activations x quantized batch of matrices)
         for kind, contiguous in variants:
             jobs.append((c, kind, contiguous, case["route"]))
     import multiprocessing as mp
